@@ -16,7 +16,7 @@ pub fn mon() -> Mon {
         run,
         finish,
         replay,
-        rule: "Configurations with every message-type list length 0..30 (random contents including 0x00, 0xFF and duplicates) and random vendor sets; histories of 10-120 operations mixing 0-10 set_uuid calls, the three identity queries (Get Message Type Support, Get Endpoint UUID, Get MCTP Version Support with every query byte) and the C13 traffic mix (assignments, other queries, responses, vendor messages, corrupted/truncated packets, decode-only calls, accessor writes, garbage) on two interleaved contexts. Every response to the three queries is compared byte-for-byte and with exact length against the model: [0, n, types...], [0, the 16 bytes last installed (zero before any)], [0, 1, F1, F3, F1, 00]. A sample is logged as JSONL and re-checked in Python. Non-trivial = a history containing at least one of the three queries and at least one other operation; distinct = distinct histories.",
+        rule: "Configurations with every message-type list length 0..30 (random contents including 0x00, 0xFF and duplicates) and random vendor sets; histories of 10-120 operations (one in 40: 300-800 operations on one context) mixing 0-10 set_uuid calls, the three identity queries (Get Message Type Support, Get Endpoint UUID, Get MCTP Version Support with every query byte) and the C13 traffic mix (assignments, other queries, responses, vendor messages, corrupted/truncated packets, decode-only calls, accessor writes, garbage) on two interleaved contexts. Every response to the three queries is compared byte-for-byte and with exact length against the model: [0, n, types...], [0, the 16 bytes last installed (zero before any)], [0, 1, F1, F3, F1, 00]. A sample is logged as JSONL and re-checked in Python. Non-trivial = a history containing at least one of the three queries and at least one other operation; distinct = distinct histories.",
         assumptions: &["message-type lists of at most 30 entries (the documented bound)", "set_uuid is given exactly 16 bytes"],
         children: no_children,
     }
@@ -69,12 +69,13 @@ fn one_history(rng: &mut Rng, ntypes: usize, rep: &mut Report, trace: Option<u64
     let nt2 = rng.below(31) as usize;
     let cfgs = vec![gen_cfg(rng, ntypes), gen_cfg(rng, nt2)];
     let models: Vec<Model> = cfgs.iter().map(Model::new).collect();
-    let len = (10 + rng.below(111) as usize).min(maxlen);
+    let long = maxlen >= 1000 && rng.chance(1, 40);
+    let len = if long { 300 + rng.below(500) as usize } else { (10 + rng.below(111) as usize).min(maxlen) };
     let mut ops = Vec::with_capacity(len);
     let mut letters = Vec::with_capacity(len);
     let mut queries = 0;
     for _ in 0..len {
-        let ci = if rng.chance(3, 4) { 0 } else { 1 };
+        let ci = if long || rng.chance(3, 4) { 0 } else { 1 };
         if rng.chance(1, 3) {
             ops.push((ci, Op::Process(identity_query(rng, cfgs[ci].addr))));
             letters.push(Letter::Query);
@@ -92,7 +93,12 @@ fn one_history(rng: &mut Rng, ntypes: usize, rep: &mut Report, trace: Option<u64
         rep.nontrivial(hash_bytes(15, h.encode().as_bytes()));
     }
     if rep.want_sample() && len <= 12 {
-        rep.sample(|| J::s(h.encode()));
+        rep.sample(|| {
+                J::obj(vec![
+                    ("history", J::s(h.encode())),
+                    ("format", J::s("contexts 'addr/types-hex/format.id.value+...' joined by '~', then '#', then operations '<context index><P=process|D=decode|L=get_length|A=set_eid(request half)|B=set_eid(response half)|U=set_uuid>:<hex>'; every step was judged against the model")),
+                ])
+            });
     }
 }
 
